@@ -482,16 +482,21 @@ def rule_cache(ctx):
     for p in ev.paths:
         for e in p.events:
             if e.kind == 'store_attr' and e.b == '_monotonic' and e.a != SELF:
-                g = [pol for a, pol in e.guards if 'slice' in T.show(a) and ('type' in T.show(a) or 'isinstance' in T.show(a))]
-                if True not in g:
-                    ctx.violated('R6', fi, e.node, 'the ordering flag may only be inherited by a sub-axis taken with a slice', node=e.node)
-                    okg = False
-                # only a *positive* answer carries over: a slice of a non-monotonic axis may well be monotonic
-                truthy = [pol for a, pol in e.guards if a in (('attr', SELF, '_monotonic'), T.mkcmp('is', ('attr', SELF, '_monotonic'), T.CONST_TRUE))]
-                if True not in truthy and e.c != T.CONST_TRUE:
-                    ctx.violated('R6', fi, e.node, 'only a cached True may be inherited by a slice: a cached False (parent not monotonic) says nothing '
-                                 'about the slice and would make later alignments depend on the array\'s history', node=e.node)
-                    okg = False
+                from ..rules import alternatives
+                for val, extra in alternatives(e.c):
+                    if val == T.CONST_NONE:
+                        continue       # the flag starts unset: nothing is inherited
+                    guards = tuple(e.guards) + tuple(extra)
+                    g = [pol for a, pol in guards if 'slice' in T.show(a) and ('type' in T.show(a) or 'isinstance' in T.show(a))]
+                    if True not in g:
+                        ctx.violated('R6', fi, e.node, 'the ordering flag may only be inherited by a sub-axis taken with a slice', node=e.node)
+                        okg = False
+                    # only a *positive* answer carries over: a slice of a non-monotonic axis may well be monotonic
+                    truthy = [pol for a, pol in guards if a in (('attr', SELF, '_monotonic'), T.mkcmp('is', ('attr', SELF, '_monotonic'), T.CONST_TRUE))]
+                    if True not in truthy and val != T.CONST_TRUE:
+                        ctx.violated('R6', fi, e.node, 'only a cached True may be inherited by a slice: a cached False (parent not monotonic) says nothing '
+                                     'about the slice and would make later alignments depend on the array\'s history', node=e.node)
+                        okg = False
     if okg:
         ctx.holds('R6', 'Axis.__getitem__ inherits the flag for slices only')
 
